@@ -193,6 +193,135 @@ pub fn run_case(ctx: &Ctx, rep: &mut Report, judge: Judge, case: &Case) {
     let _ = ctx;
 }
 
+/// C01 through the path-based conveniences: `create` / `create_cdda` -> file on disk -> `open`,
+/// `verify(path)`, `metadata::info/block/blocks_of(path)`.  Same oracle as the in-memory round
+/// trip; files live in `<--out dir>/tmp` (the check's own scratch directory) and are removed.
+pub fn run_path_case(ctx: &Ctx, rep: &mut Report, rng: &mut Rng, n: u64) {
+    use flac_codec::byteorder::LittleEndian;
+    use flac_codec::decode::{FlacByteReader, FlacChannelReader, FlacSampleReader, Metadata};
+    use flac_codec::encode::{FlacByteWriter, FlacChannelWriter, FlacSampleWriter};
+    use std::io::{Read, Write};
+    let dir = crate::api::scratch_dir().join(format!("paths-{}-{}-{}", std::process::id(), ctx.seed, ctx.shard));
+    if std::fs::create_dir_all(&dir).is_err() {
+        rep.notes.push("path scenario skipped: cannot create a scratch directory".into());
+        return;
+    }
+    let path = dir.join(format!("case-{n}.flac"));
+    let cdda = rng.chance(1, 3);
+    let mut cfg = EncCfg::random(rng);
+    cfg.extras = 0;
+    if cdda {
+        cfg.channels = 2;
+        cfg.bps = 16;
+        cfg.rate = 44100;
+    }
+    cfg.block_size = *rng.pick(&[16u16, 192, 576, 1152, 4096]);
+    let frames = rng.usize(1, 3000);
+    let recipe = PcmRecipe { signal: *rng.pick(&flacref::pcm::ALL_SIGNALS), seed: rng.next(), frames };
+    let pcm = recipe.make(cfg.channels as usize, cfg.bps);
+    let front = *rng.pick(&[Front::Sample, Front::ByteLE, Front::Channel]);
+    rep.eval();
+    rep.case_begin(&format!("path round trip cdda={cdda} {front:?} {cfg:?} {recipe:?}"));
+    rep.count("path_api", format!("{}:{front:?}", if cdda { "create_cdda" } else { "create" }));
+    let replay = || J::obj().set("scenario", "path-round-trip").set("cdda", cdda).set("cfg", cfg.to_json()).set("front", format!("{front:?}")).set("recipe", recipe.to_json());
+    let Ok(opts) = make_options(&cfg) else { return };
+    let opts = opts.overwrite();
+    let ch = cfg.channels as usize;
+    let total_frames = (pcm.len() / ch) as u64;
+    let written = mon::guard(|| -> Result<(), String> {
+        let e = |e: flac_codec::Error| crate::api::show(&e);
+        match front {
+            Front::Sample => {
+                let total = cfg.declare_total.then_some(pcm.len() as u64);
+                let mut w = if cdda { FlacSampleWriter::create_cdda(&path, opts, total).map_err(e)? } else { FlacSampleWriter::create(&path, opts, cfg.rate, cfg.bps, cfg.channels, total).map_err(e)? };
+                w.write(&pcm).map_err(e)?;
+                w.finalize().map_err(e)
+            }
+            Front::ByteLE | Front::ByteBE => {
+                let bytes = flacref::pcm::to_bytes(&pcm, cfg.bps, false);
+                let total = cfg.declare_total.then_some(bytes.len() as u64);
+                let mut w: FlacByteWriter<_, LittleEndian> = if cdda { FlacByteWriter::create_cdda(&path, opts, total).map_err(e)? } else { FlacByteWriter::create(&path, opts, cfg.rate, cfg.bps, cfg.channels, total).map_err(e)? };
+                w.write_all(&bytes).map_err(|e| format!("Io({e:?})"))?;
+                w.finalize().map_err(e)
+            }
+            Front::Channel => {
+                let total = cfg.declare_total.then_some(total_frames);
+                let mut w = if cdda { FlacChannelWriter::create_cdda(&path, opts, total).map_err(e)? } else { FlacChannelWriter::create(&path, opts, cfg.rate, cfg.bps, cfg.channels, total).map_err(e)? };
+                let chans = flacref::dec::deinterleave(&pcm, ch);
+                w.write(&chans).map_err(e)?;
+                w.finalize().map_err(e)
+            }
+        }
+    });
+    match written {
+        Err(p) => {
+            rep.violation("panic", format!("path-encode:{}", p.signature()), format!("{} at {}", p.msg, p.location), replay());
+            let _ = std::fs::remove_dir_all(&dir);
+            return;
+        }
+        Ok(Err(e)) => {
+            rep.violation("encode-error", format!("path-encode-error:{}", err_name(&e)), format!("path-based writer refused in-domain input: {e}"), replay());
+            let _ = std::fs::remove_dir_all(&dir);
+            return;
+        }
+        Ok(Ok(())) => {}
+    }
+    // read back through every path-based reader
+    let read = mon::guard(|| -> Result<(), String> {
+        let e = |e: flac_codec::Error| crate::api::show(&e);
+        let mut r = FlacSampleReader::open(&path).map_err(e)?;
+        if r.channel_count() != cfg.channels || r.bits_per_sample() != cfg.bps || r.sample_rate() != cfg.rate || r.total_samples() != Some(total_frames) {
+            return Err(format!("MISMATCH metadata via open(): ch {} bps {} rate {} total {:?}", r.channel_count(), r.bits_per_sample(), r.sample_rate(), r.total_samples()));
+        }
+        let mut got = vec![];
+        r.read_to_end(&mut got).map_err(e)?;
+        if got != pcm {
+            return Err(format!("MISMATCH FlacSampleReader::open: {}", first_diff(&got, &pcm)));
+        }
+        let mut b = vec![];
+        FlacByteReader::open(&path, LittleEndian).map_err(e)?.read_to_end(&mut b).map_err(|e| format!("Io({e:?})"))?;
+        if b != flacref::pcm::to_bytes(&pcm, cfg.bps, false) {
+            return Err("MISMATCH FlacByteReader::open returns different bytes".into());
+        }
+        let mut cr = FlacChannelReader::open(&path).map_err(e)?;
+        let mut frames_seen = 0u64;
+        loop {
+            let f = cr.fill_buf().map_err(e)?;
+            let k = f.first().map(|c| c.len()).unwrap_or(0);
+            if k == 0 {
+                break;
+            }
+            frames_seen += k as u64;
+            cr.consume(k);
+        }
+        if frames_seen != total_frames {
+            return Err(format!("MISMATCH FlacChannelReader::open delivered {frames_seen} PCM frames of {total_frames}"));
+        }
+        match flac_codec::decode::verify(&path).map_err(e)? {
+            flac_codec::decode::Verified::MD5Match => {}
+            other => return Err(format!("MISMATCH verify(path) says {other:?}")),
+        }
+        let si = flac_codec::metadata::info(&path).map_err(e)?;
+        if si.total_samples.map(|t| t.get()) != Some(total_frames) || si.sample_rate != cfg.rate {
+            return Err(format!("MISMATCH metadata::info(path): {si:?}"));
+        }
+        let si2: Option<flac_codec::metadata::Streaminfo> = flac_codec::metadata::block(&path).map_err(e)?;
+        if si2.as_ref() != Some(&si) {
+            return Err("MISMATCH metadata::block::<Streaminfo>(path) differs from info(path)".into());
+        }
+        let pads = flac_codec::metadata::blocks_of::<_, flac_codec::metadata::Padding>(&path).filter(|b| b.is_ok()).count();
+        std::hint::black_box(pads);
+        Ok(())
+    });
+    match read {
+        Err(p) => rep.violation("panic", format!("path-decode:{}", p.signature()), format!("{} at {}", p.msg, p.location), replay()),
+        Ok(Err(m)) if m.starts_with("MISMATCH") => rep.violation("mismatch", format!("path-roundtrip:{}", m.split(':').next().unwrap_or("").replace("MISMATCH ", "")), m, replay()),
+        Ok(Err(e)) => rep.violation("decode-error", format!("path-decode-error:{}", err_name(&e)), format!("path-based reader fails on the crate's own file: {e}"), replay()),
+        Ok(Ok(())) => rep.nontrivial(hash_str(&format!("path{:?}{:?}{cdda}", cfg, recipe))),
+    }
+    let _ = std::fs::remove_dir_all(&dir);
+}
+
 /// C02, raw frame streams: a history of `FlacStreamWriter::write` calls, some of them refused
 /// (illegal parameters), must leave a byte stream that is exactly the conforming frames of the
 /// accepted calls, numbered consecutively from 0; a refused call contributes nothing.
@@ -338,10 +467,18 @@ pub fn run(ctx: &Ctx, rep: &mut Report, judge: Judge) {
         for _ in 0..40 {
             run_stream_history(rep, &mut rng);
         }
+    } else {
+        for n in 0..6 {
+            run_path_case(ctx, rep, &mut rng, n);
+        }
     }
     while ctx.time_left() {
         if judge == Judge::Reference && rng.chance(1, 8) {
             run_stream_history(rep, &mut rng);
+        }
+        if judge == Judge::CrateDecoders && rng.chance(1, 40) {
+            let n = 1000 + rng.below(1 << 30);
+            run_path_case(ctx, rep, &mut rng, n);
         }
         let cfg = EncCfg::random(&mut rng);
         let bs = cfg.block_size as usize;
